@@ -2462,6 +2462,440 @@ unit(name="SrcSampledGet", props="properties C03, C05", file="src/data_structure
                      fuel=["len + 1"], theorem="RbV.Thm.GenSrcSampledGet.get_eq_model")])
 
 
+# ---- genfmd: the FMD index (C06).  `BiInterval` is the tuple (lower, lower_rev, size, match_size) (field order pinned by the
+# struct declaration, `pinned_items`).  `self.fmindex.less(a)`, `self.fmindex.occ(r, a)` (trait methods of the wrapped FM-index)
+# and `dna::complement(a)` (a table lookup) are abstract pure functions, as `self.less` / `self.occ` in `backward_search`
+FMD_BI = {"BiInterval": [("lower", "usize"), ("lower_rev", "usize"), ("size", "usize"), ("match_size", "usize")]}
+FMD_BI_FIELDS = [("lower", "usize"), ("lower_rev", "usize"), ("size", "usize"), ("match_size", "usize")]
+FMD_LESS = {"self.fmindex.less": dict(lean="lessF", args=["u8"], ret="usize")}
+FMD_OCC = {"self.fmindex.occ": dict(lean="occF", args=["usize", "u8"], ret="usize")}
+FMD_COMPL = {"dna::complement": dict(lean="complF", args=["u8"], ret="u8")}
+FMD_SWAPPED = {"BiInterval.swapped": dict(lean="swapped", ret="BiInterval")}
+FMD_PINNED = ["pub struct BiInterval { lower: usize, lower_rev: usize, size: usize, match_size: usize, }"]
+FMD_IMPL = "impl<DBWT: Borrow<BWT>, DLess: Borrow<Less>, DOcc: Borrow<Occ>> FMDIndex<DBWT, DLess, DOcc>"
+
+unit(name="SrcFmdExt", props="property C06", file="src/data_structures/fmindex.rs", dialect="fmd", structs=FMD_BI,
+     pinned_items=FMD_PINNED, rec_methods=FMD_SWAPPED,
+     functions=[dict(name="BiInterval::swapped", lean="swapped", header="fn swapped(&self) -> BiInterval",
+                     self_fields=FMD_BI_FIELDS, params=[], ret="BiInterval",
+                     theorem="RbV.Thm.GenSrcFmdExt.swapped_eq_model"),
+                dict(name="FMDIndex::init_interval_with", lean="init_interval_with",
+                     header="pub fn init_interval_with(&self, a: u8) -> BiInterval", after=FMD_IMPL,
+                     abstract_fns=dict(FMD_LESS, **FMD_COMPL), params=[("a", "u8")], ret="BiInterval",
+                     theorem="RbV.Thm.GenSrcFmdExt.init_interval_with_eq_model"),
+                dict(name="FMDIndex::init_interval", lean="init_interval", header="pub fn init_interval(&self) -> BiInterval",
+                     after=FMD_IMPL, self_fields=[("fmindex.bwt", "Vec<u8>")], params=[], ret="BiInterval",
+                     theorem="RbV.Thm.GenSrcFmdExt.init_interval_eq_model"),
+                dict(name="FMDIndex::backward_ext", lean="backward_ext",
+                     header="pub fn backward_ext(&self, interval: &BiInterval, a: u8) -> BiInterval", after=FMD_IMPL,
+                     abstract_fns=dict(FMD_LESS, **FMD_OCC), params=[("interval", "&BiInterval"), ("a", "u8")],
+                     ret="BiInterval", locals={"s": "usize", "o": "usize", "l": "usize", "k": "usize"},
+                     theorem="RbV.Thm.GenSrcFmdExt.backward_ext_eq_model"),
+                dict(name="FMDIndex::forward_ext", lean="forward_ext",
+                     header="pub fn forward_ext(&self, interval: &BiInterval, a: u8) -> BiInterval", after=FMD_IMPL,
+                     abstract_fns=dict(dict(FMD_LESS, **FMD_OCC), **FMD_COMPL),
+                     self_calls={"backward_ext": dict(lean="backward_ext", self_args=[], args=["&BiInterval", "u8"],
+                                                      ret="BiInterval", abs=["lessF", "occF"])},
+                     params=[("interval", "&BiInterval"), ("a", "u8")], ret="BiInterval",
+                     theorem="RbV.Thm.GenSrcFmdExt.forward_ext_eq_model")])
+
+# `smems` / `all_smems` call the translated siblings (Gen/SrcFmdExt.lean, Gen/SrcFmdSmems.lean) with the abstract `less`,
+# `occ`, `complement` passed on; `isize` variables (`k`, `j`, `last_size`) are Lean `Int`s
+FMD_HIT = "Vec<(BiInterval, usize, usize)>"
+FMD_EXT = "RbV.Gen.SrcFmdExt."
+FMD_ABS3 = dict(dict(FMD_LESS, **FMD_OCC), **FMD_COMPL)
+
+unit(name="SrcFmdSmems", props="property C06", file="src/data_structures/fmindex.rs", dialect="fmd", structs=FMD_BI,
+     pinned_items=FMD_PINNED, imports=["RbV.Gen.SrcFmdExt"],
+     functions=[dict(name="FMDIndex::smems", lean="smems",
+                     header="pub fn smems(&self, pattern: &[u8], i: usize, l: usize) -> Vec<(BiInterval, usize, usize)>",
+                     abstract_fns=FMD_ABS3,
+                     self_calls={"init_interval_with": dict(lean=FMD_EXT + "init_interval_with", self_args=[], args=["u8"],
+                                                            ret="BiInterval", abs=["lessF", "complF"]),
+                                 "forward_ext": dict(lean=FMD_EXT + "forward_ext", self_args=[],
+                                                     args=["&BiInterval", "u8"], ret="BiInterval",
+                                                     abs=["lessF", "occF", "complF"]),
+                                 "backward_ext": dict(lean=FMD_EXT + "backward_ext", self_args=[],
+                                                      args=["&BiInterval", "u8"], ret="BiInterval", abs=["lessF", "occF"])},
+                     params=[("pattern", "&[u8]"), ("i", "usize"), ("l", "usize")], ret=FMD_HIT,
+                     locals={"curr": "Vec<(BiInterval, usize)>", "prev": "Vec<(BiInterval, usize)>", "matches": FMD_HIT,
+                             "match_len": "usize", "j": "isize", "last_size": "isize", "a": "u8"},
+                     theorem="RbV.Thm.GenSrcFmdSmems.smems_eq_model")])
+
+unit(name="SrcFmdAllSmems", props="property C06", file="src/data_structures/fmindex.rs", dialect="fmd", structs=FMD_BI,
+     pinned_items=FMD_PINNED, imports=["RbV.Gen.SrcFmdSmems"],
+     functions=[dict(name="FMDIndex::all_smems", lean="all_smems",
+                     header="pub fn all_smems(&self, pattern: &[u8], l: usize) -> Vec<(BiInterval, usize, usize)>",
+                     abstract_fns=FMD_ABS3,
+                     self_calls={"smems": dict(lean="RbV.Gen.SrcFmdSmems.smems", self_args=[],
+                                               args=["&[u8]", "usize", "usize"], ret=FMD_HIT,
+                                               abs=["lessF", "occF", "complF"])},
+                     params=[("pattern", "&[u8]"), ("l", "usize")], ret=FMD_HIT,
+                     locals={"smems": FMD_HIT, "i0": "usize", "curr_smems": FMD_HIT, "next_i0": "usize"},
+                     # `i0` grows by at least one per round
+                     fuel=["pattern.length + 1"], theorem="RbV.Thm.GenSrcFmdAllSmems.all_smems_eq_model")])
+
+
+
+# ================================================================================================== dialect "fmd" (genfmd)
+# FMD-index (C06) and the remaining suffix-array code (C03).  Units with `dialect="fmd"` are translated by subclasses of the
+# "cf" dialect classes (tools/rs2lean_cf.py over tools/rs2lean_cfbase.py: loops as recursive helpers on the remaining items,
+# structs of the spec as tuples, sibling calls), extended here by
+#   * signed integers as Lean `Int` (`isize` locals, `x as isize`, `k as usize`, literals `-1`, `+`/`-` checked against the
+#     64-bit range, comparisons, ranges `(lo..hi)` over `isize`): semantics `lean/RbV/Basic/RsSemInt.lean`
+#   * byte-string literals `b"…"` as lists, struct literals with fields in any order and with a base `..*x`
+#   * `swap(a, b)`, `v.reverse()`, `v.append(&mut w)`, methods of a struct of the spec that are translated siblings
+#     (`rec_methods`), calls of translated siblings that return a value (`self_calls`), `imports`
+#   * every `for` loop is a recursive helper `<fn>_for<k>` (also those without a jump)
+# Everything else is refused as in the other dialects.
+
+# ---- genfmd: `shortest_unique_substrings` (C03).  The suffix array is read at the slice instance of `SuffixArray`
+# (`get(i)` = `pos[i]?`), the LCP array (`SmallInts<i8, isize>`) as the vector of its values (`get(i)` = `lcp[i]?`: the
+# container theorem `lcp_container_source_exact` of Thm/C03.lean says that the translated container reads back like one)
+unit(name="SrcSus", props="property C03", file="src/data_structures/suffix_array.rs", dialect="fmd",
+     functions=[dict(name="shortest_unique_substrings", lean="sus",
+                     header="pub fn shortest_unique_substrings<SA: SuffixArray>(pos: &SA, lcp: &LCPArray) -> Vec<Option<usize>>",
+                     aliases={"SA": "[usize]", "LCPArray": "[isize]"},
+                     params=[("pos", "&SA"), ("lcp", "&LCPArray")], ret="Vec<Option<usize>>",
+                     locals={"sus": "Vec<Option<usize>>", "len": "usize"},
+                     theorem="RbV.Thm.GenSrcSus.sus_eq_model")])
+
+_FMD = {}
+
+
+def _fmd_classes():
+    if _FMD:
+        return _FMD
+    sys.path.insert(0, os.path.dirname(os.path.abspath(__file__)))
+    import rs2lean_cfbase as cb
+    import rs2lean_cf as cf
+    N_, Code_, Unsup = cb.N, cb.Code, cb.Unsupported
+    atom_, strip_, proj_ = cb.atom, cf.strip, cf.proj
+    BaseX = cf.FnTranslatorX
+    cb.LEAN_KEYWORDS.add("matches")          # a Lean token: a Rust variable of that name is renamed like the other keywords
+
+    class TSInt(cb.TInt):
+        """a signed integer type read at Lean's `Int` (range kept by the checked operations of RsSemInt.lean)"""
+
+        def lean(self):
+            return "Int"
+
+    class ParserF(cf.ParserX):
+        def primary(self, no_struct):
+            x = self.peek()
+            nx = self.peek(1)
+            if x.kind == "id" and x.text == "b" and nx.kind == "str" and nx.pos == x.pos + 1:
+                self.next()
+                self.next()
+                inner, vals, i = nx.text[1:-1], [], 0
+                esc = {"n": 10, "r": 13, "t": 9, "\\": 92, "0": 0, "'": 39, '"': 34}
+                while i < len(inner):
+                    c = inner[i]
+                    if c == "\\":
+                        if i + 1 < len(inner) and inner[i + 1] in esc:
+                            vals.append(esc[inner[i + 1]])
+                            i += 2
+                        elif inner[i + 1:i + 2] == "x" and re.fullmatch(r"[0-9a-fA-F]{2}", inner[i + 2:i + 4]):
+                            vals.append(int(inner[i + 2:i + 4], 16))
+                            i += 4
+                        else:
+                            raise Unsup("escape in byte string %s" % nx.text, x.pos)
+                    elif ord(c) < 128:
+                        vals.append(ord(c))
+                        i += 1
+                    else:
+                        raise Unsup("byte string %s" % nx.text, x.pos)
+                return N_("bytes", x.pos, v=vals)
+            if x.kind == "id" and x.text[:1].isupper() and self.at("{", 1) and not no_struct:
+                # struct literal, fields in any order, optional base `..e`
+                self.next()
+                self.next()
+                fields, base = [], None
+                while not self.at("}"):
+                    if self.at(".."):
+                        self.next()
+                        base = self.expr()
+                        break
+                    f = self.ident()
+                    if self.at(":"):
+                        self.next()
+                        fields.append((f.text, self.expr()))
+                    else:
+                        fields.append((f.text, N_("var", f.pos, name=f.text)))
+                    if self.at(","):
+                        self.next()
+                    elif not self.at("}"):
+                        raise Unsup("struct literal", self.peek().pos)
+                self.expect("}")
+                return N_("struct", x.pos, name=x.text, fields=fields, base=base)
+            return cf.ParserX.primary(self, no_struct)
+
+    class FnTranslatorF(BaseX):
+        parser_class = ParserF
+
+        def __init__(self, unit, fspec, src, body_text, body_pos):
+            BaseX.__init__(self, unit, fspec, src, body_text, body_pos)
+            self.rec_methods = dict(unit.get("rec_methods", {}))
+            self.rec_methods.update(fspec.get("rec_methods", {}))
+
+        # ------------------------------------------------------------ types
+        def ty(self, t):
+            r = BaseX.ty(self, t)
+            if isinstance(r, cb.TInt) and r.signed and not isinstance(r, TSInt):
+                return TSInt(r.name)
+            return r
+
+        def lit_type(self, e, expected):
+            t = BaseX.lit_type(self, e, expected)
+            if isinstance(t, cb.TInt) and t.signed and not isinstance(t, TSInt):
+                return TSInt(t.name)
+            return t
+
+        def dry(self, e, expected=None):
+            """type of `e` without emitting code (None when it cannot be typed in isolation)"""
+            saved = (self.n_tmp, list(self.helpers), self.n_for, self.n_while, list(self.used_abs))
+            try:
+                _, t = self.expr(e, Code_(), expected)
+            except Unsup:
+                t = None
+            self.n_tmp, self.helpers, self.n_for, self.n_while, self.used_abs = saved
+            return t
+
+        def signed(self, e):
+            t = self.dry(e)
+            return isinstance(t, TSInt)
+
+        # ------------------------------------------------------------ expressions
+        def expr(self, e, code, expected=None):
+            k = e.kind
+            if k == "bytes":
+                return "[" + ", ".join(str(v) for v in e.v) + "]", cb.TSeq(cb.TInt("u8"))
+            if k == "lit" and not e.suf and isinstance(expected, TSInt):
+                if not (-(2 ** (expected.w - 1)) <= e.v < 2 ** (expected.w - 1)):
+                    self.err("literal %d does not fit %s" % (e.v, expected.name), e)
+                return "(%d : Int)" % e.v, expected
+            if k == "un" and e.op == "-" and strip_(e.e).kind == "lit" and not strip_(e.e).suf:
+                if not isinstance(expected, TSInt):
+                    self.err("negative literal where the expected type is not a signed integer of the spec", e)
+                v = strip_(e.e).v
+                if v > 2 ** (expected.w - 1):
+                    self.err("literal -%d does not fit %s" % (v, expected.name), e)
+                return "(-%d : Int)" % v, expected
+            if k == "un" and e.op == "*":
+                return self.expr(e.e, code, expected)              # references are transparent
+            if k == "cast":
+                target = self.ty(e.ty)
+                if isinstance(target, TSInt) or (isinstance(target, cb.TInt) and self.signed(e.e)):
+                    s, st = self.expr(e.e, code, target if self.is_lit(e.e) else None)
+                    if isinstance(target, TSInt) and isinstance(st, cb.TInt) and not st.signed and st.w == target.w:
+                        return "Rs.toSigned %d %s" % (target.w, atom_(s)), target
+                    if isinstance(st, TSInt) and isinstance(target, cb.TInt) and not target.signed and st.w == target.w:
+                        return "Rs.ofSigned %d %s" % (target.w, atom_(s)), target
+                    if isinstance(st, TSInt) and st == target:
+                        return s, target
+                    self.err("cast `as %r` from %r" % (target, st), e)
+            if k == "bin" and e.op not in ("&&", "||"):
+                lt = self.dry(e.l)
+                rt = self.dry(e.r)
+                if isinstance(lt, TSInt) or isinstance(rt, TSInt):
+                    ty_ = lt if isinstance(lt, TSInt) else rt
+                    l, lt = self.expr(e.l, code, ty_)
+                    r, rt = self.expr(e.r, code, ty_)
+                    if lt != rt or not isinstance(lt, TSInt) or not isinstance(rt, TSInt):
+                        self.err("`%s` on %r and %r" % (e.op, lt, rt), e)
+                    if e.op in ("==", "!="):
+                        return "%s %s %s" % (atom_(l), e.op, atom_(r)), cb.TBool()
+                    if e.op in ("<", ">", "<=", ">="):
+                        return "decide (%s %s %s)" % (atom_(l), {"<": "<", ">": ">", "<=": "≤", ">=": "≥"}[e.op], atom_(r)), cb.TBool()
+                    if e.op in ("+", "-"):
+                        t = self.tmp()
+                        code.bind(t, ("call", "Rs.%s %d %s %s" % ("iadd" if e.op == "+" else "isub", lt.w, atom_(l), atom_(r))))
+                        return t, lt
+                    self.err("operator `%s` on the signed type %r" % (e.op, lt), e)
+            if k == "struct" and e.name in self.structs:
+                want = [f for f, _ in self.structs[e.name]]
+                rt = self.ty_of_text(e.name)
+                given = {}
+                for f, x in e.fields:
+                    if f not in want or f in given:
+                        self.err("struct literal `%s`: field `%s` (the spec has %s)" % (e.name, f, ",".join(want)), e)
+                    given[f] = self.expr(x, code, rt.items[want.index(f)])
+                    if given[f][1] != rt.items[want.index(f)]:
+                        self.err("field `%s` of `%s` has type %r, the spec says %r" % (f, e.name, given[f][1],
+                                                                                      rt.items[want.index(f)]), e)
+                base = None
+                if getattr(e, "base", None) is not None:
+                    b, bt = self.expr(e.base, code, rt)
+                    if bt != rt:
+                        self.err("base `..e` of the struct literal `%s` has type %r" % (e.name, bt), e)
+                    base = b
+                parts = []
+                for i, f in enumerate(want):
+                    if f in given:
+                        parts.append(given[f][0])
+                    elif base is not None:
+                        parts.append(proj_(base, i, len(want)))
+                    else:
+                        self.err("struct literal `%s` lacks the field `%s`" % (e.name, f), e)
+                return "(" + ", ".join(parts) + ")", rt
+            return BaseX.expr(self, e, code, expected)
+
+        def mcall(self, e, code, expected):
+            if not e.args and self.rec_methods:
+                rt = self.dry(e.recv)
+                if isinstance(rt, cf.TRec) and "%s.%s" % (rt.name, e.name) in self.rec_methods:
+                    f = self.rec_methods["%s.%s" % (rt.name, e.name)]
+                    r, _ = self.expr(e.recv, code)
+                    if not re.fullmatch(r"[\w.']+", r):
+                        tv = self.tmp()
+                        code.let(tv, r)
+                        r = tv
+                    t = self.tmp()
+                    n = len(rt.fields)
+                    code.bind(t, ("call", f["lean"] + "".join(" " + atom_(proj_(r, i, n)) for i in range(n))))
+                    return t, self.ty_of_text(f["ret"])
+            if e.name == "get" and len(e.args) == 1:
+                rt = self.dry(e.recv)
+                if isinstance(rt, cb.TSeq):
+                    r, _ = self.expr(e.recv, code)
+                    i, it = self.expr(e.args[0], code, cb.TInt("usize"))
+                    if it != cb.TInt("usize"):
+                        self.err("`.get(%r)`" % (it,), e)
+                    return "%s[%s]?" % (atom_(r), i), cf.TOpt(rt.elem)
+            return BaseX.mcall(self, e, code, expected)
+
+        def _reads(self, n, out):
+            # `self.a.m(args)` declared abstract: `self.a` itself is not read as a field
+            if isinstance(n, N_) and n.kind == "mcall" and strip_(n.recv).kind == "field" \
+                    and self.self_chain(strip_(n.recv)) is not None \
+                    and "self." + ".".join(self.self_chain(strip_(n.recv))) + "." + n.name in self.absfns:
+                return self._reads(n.args, out)
+            return BaseX._reads(self, n, out)
+
+        def call(self, e, code, expected):
+            path = "::".join(e.path)
+            if path in ("max", "min", "cmp::max", "cmp::min", "std::cmp::max", "std::cmp::min") and len(e.args) == 2 \
+                    and (self.signed(e.args[0]) or self.signed(e.args[1])):
+                ty_ = self.dry(e.args[0]) if self.signed(e.args[0]) else self.dry(e.args[1])
+                l, lt = self.expr(e.args[0], code, ty_)
+                r, rt = self.expr(e.args[1], code, ty_)
+                if lt != rt or not isinstance(lt, TSInt):
+                    self.err("`%s` on %r and %r" % (path, lt, rt), e)
+                return "%s %s %s" % (e.path[-1], atom_(l), atom_(r)), lt
+            return BaseX.call(self, e, code, expected)
+
+        # ------------------------------------------------------------ statements
+        def _mut_expr(self, e, decl, out):
+            BaseX._mut_expr(self, e, decl, out)
+
+            def f(n):
+                if n.kind in ("if", "match", "block", "closure"):
+                    return False
+                targets = []
+                if n.kind == "call" and n.path == ["swap"] and len(n.args) == 2:
+                    targets = list(n.args)
+                if n.kind == "mcall" and n.name in ("reverse", "append"):
+                    targets = [n.recv] + ([n.args[0]] if n.name == "append" and n.args else [])
+                for a in targets:
+                    r = self._lhs_root(a)
+                    if r not in decl and r not in out:
+                        out.append(r)
+                return True
+            cf.walk(e, f)
+
+        def expr_stmt(self, e, code):
+            if e.kind == "call" and e.path == ["swap"] and len(e.args) == 2:
+                a, b = self.container(e.args[0], e), self.container(e.args[1], e)
+                if a is None or b is None or a.ty != b.ty:
+                    self.err("`swap` of something other than two variables of one type", e)
+                code.let("(%s, %s)" % (a.lean, b.lean), "(%s, %s)" % (b.lean, a.lean))
+                return
+            if e.kind == "mcall" and e.name == "reverse" and not e.args:
+                v = self.container(e.recv, e)
+                if v is None or not isinstance(v.ty, cb.TSeq):
+                    self.err("`.reverse()` on something other than a sequence held in a variable", e)
+                code.let(v.lean, "%s.reverse" % v.lean)
+                return
+            if e.kind == "mcall" and e.name == "append" and len(e.args) == 1:
+                v, w = self.container(e.recv, e), self.container(e.args[0], e)
+                if v is None or w is None or not isinstance(v.ty, cb.TSeq) or v.ty != w.ty:
+                    self.err("`.append(&mut w)` on something other than two sequences of one type held in variables", e)
+                code.let(v.lean, "%s ++ %s" % (v.lean, w.lean))
+                code.let(w.lean, "([] : %s)" % w.ty.lean())
+                return
+            return BaseX.expr_stmt(self, e, code)
+
+        # ------------------------------------------------------------ loops
+        def loop_source(self, it, code, s):
+            x = strip_(it)
+            if x.kind == "range" and x.lo is not None and x.hi is not None and not x.incl \
+                    and (self.signed(x.lo) or self.signed(x.hi)):
+                ty_ = self.dry(x.lo) if self.signed(x.lo) else self.dry(x.hi)
+                lo, lt = self.expr(x.lo, code, ty_)
+                hi, ht = self.expr(x.hi, code, ty_)
+                if lt != ht or not isinstance(lt, TSInt):
+                    self.err("range bounds of type %r and %r" % (lt, ht), s)
+                return "Rs.irange %s %s" % (atom_(lo), atom_(hi)), lt, None
+            return BaseX.loop_source(self, it, code, s)
+
+        def cf_for(self, s, code, js, fn_level=False):
+            # a loop variable may shadow a variable of an enclosing block: inside the helper only the loop variable is
+            # visible (the shadowed one can be neither read nor assigned there), after the loop the outer one is back
+            hidden = []
+            for sc in self.scopes:
+                for nm in self.pat_names_x(s.pat):
+                    if nm != "_" and nm in sc and not nm.startswith("self."):
+                        hidden.append((sc, nm, sc[nm]))
+            for sc, nm, _ in hidden:
+                del sc[nm]
+            try:
+                return BaseX.cf_for(self, s, code, js, fn_level)
+            finally:
+                for sc, nm, v in hidden:
+                    sc[nm] = v
+
+        def for_(self, s, code):
+            js = cf.jumps(s.body)
+            if "return" in js:
+                self.err("`return` inside a loop that is not a statement of the function body itself", s)
+            self.cf_for(s, code, js)
+
+    _FMD.update(cb=cb, cf=cf, Parser=ParserF, Translator=FnTranslatorF, TSInt=TSInt)
+    return _FMD
+
+
+def translate_unit_fmd(src, unit, fail):
+    """dialect "fmd": the unit is translated by `rs2lean_cfbase.translate_unit` with the classes above in the place of the
+    "cf" classes; `imports` of the unit are added to the generated file"""
+    d = _fmd_classes()
+    cb, cf = d["cb"], d["cf"]
+    for item in unit.get("pinned_items", []):
+        n_found = len(re.findall(tokens_regex(item), src.code))
+        if n_found != 1:
+            fail("%s: expected exactly one item `%s`, found %d (the translation spec in tools/rs2lean_fm.py pins it)"
+                 % (unit["file"], " ".join(item.split())[:120], n_found))
+    saved = cf.FnTranslatorX
+    cf.FnTranslatorX = d["Translator"]
+    try:
+        text, snippets = cb.translate_unit(src, dict(unit, dialect="cf"), fail)
+    finally:
+        cf.FnTranslatorX = saved
+    imports = ["import RbV.Basic.RsSemInt"] + ["import " + m for m in unit.get("imports", [])]
+    text = text.replace("import RbV.Basic.RsSem\n", "import RbV.Basic.RsSem\n" + "\n".join(imports) + "\n", 1)
+    text = text.replace("GENERATED by tools/rs2lean.py", "GENERATED by tools/rs2lean_fm.py (dialect fmd)", 1)
+    return text, snippets
+
+
+_translate_unit_fm = translate_unit
+
+
+def translate_unit(src, unit, fail):
+    if unit.get("dialect") == "fmd":
+        return translate_unit_fmd(src, unit, fail)
+    return _translate_unit_fm(src, unit, fail)
+
+
+
 # ================================================================================================== self-test
 
 SELFTEST_RS = r"""
